@@ -18,7 +18,7 @@ def one(sid):
         r = subprocess.run(['git', '-C', d, 'apply', os.path.join(V, 'seeded', sid, 'patch.diff')])
         if r.returncode != 0:
             return sid, {'error': 'patch does not apply'}
-        env = dict(os.environ, PYSPIKE_REPO=d, VERIF_SKIP_LEAN='1', VERIF_EVIDENCE_DIR=d + '/_ev', PYTHONPATH=d)
+        env = dict(os.environ, PYSPIKE_REPO=d, VERIF_SKIP_LEAN='1', VERIF_SKIP_GEN='1', VERIF_EVIDENCE_DIR=d + '/_ev', PYTHONPATH=d)
         for p in props:
             r = subprocess.run([V + '/check', p, '--tier', 'quick'], env=env, stdout=subprocess.PIPE, stderr=subprocess.STDOUT, cwd=V)
             out = r.stdout.decode(errors='replace')
